@@ -22,9 +22,12 @@ try:
     if not res['applies']:
         res['apply_error'] = (a.stderr or a.stdout)[-300:]
     else:
-        b = subprocess.run([os.path.join(ROOT, 'tools', 'baseline.py')], env=dict(os.environ, VERIF_REPO=tree), capture_output=True, text=True)
-        res['baseline'] = b.stdout.strip().split('\n')[0]
-        res['baseline_ok'] = b.returncode == 0
+        if os.environ.get('SEED_SKIP_BASELINE'):          # re-check of a change that was confirmed before
+            res['baseline'], res['baseline_ok'] = 'skipped (confirmed when collected)', True
+        else:
+            b = subprocess.run([os.path.join(ROOT, 'tools', 'baseline.py')], env=dict(os.environ, VERIF_REPO=tree), capture_output=True, text=True)
+            res['baseline'] = b.stdout.strip().split('\n')[0]
+            res['baseline_ok'] = b.returncode == 0
         if demo != '-':
             env = dict(os.environ)
             d0 = subprocess.run(['/venv/bin/python', '-W', 'ignore', demo], env=dict(env, PYTHONPATH='/repo'), capture_output=True, text=True, cwd=work, timeout=600)
